@@ -59,7 +59,7 @@ def gen_limits(rng, kind):
 
 def gen_system(rng, *, max_nodes=24, p_table=0.25, p_mux=0.3, n_sources=None, polarity=True,
                p_rt=0.0, p_limits=0.0, p_group=0.0, p_rail=0.0, phases=0.0, p_neg_args=0.15,
-               heavy=False, p_neg_src_rs=0.0, p_detour=0.25, p_bridge=0.15):
+               heavy=False, p_neg_src_rs=0.0, p_detour=0.25, p_bridge=0.15, p_dup=0.0):
     """Returns a description dict.  `heavy` sizes series resistances / loads towards overload."""
     ns = n_sources if n_sources is not None else rng.choice([1, 1, 1, 2, 2, 3])
     n_total = rng.randint(ns + 1, max(ns + 1, int(rng.choice([4, 8, 12, max_nodes]))))
@@ -164,7 +164,11 @@ def gen_system(rng, *, max_nodes=24, p_table=0.25, p_mux=0.3, n_sources=None, po
             if polarity and (vin < 0) != (rng.random() < 0.1):
                 vo = -vo
             args = {"vo": vo}
-            if rng.random() < 0.6:
+            if rng.random() < 0.04:
+                # brown-out: a regulator whose dropout exceeds its whole supply (|vi| - vdrop < 0: the output is clamped to 0 V)
+                vo = math.copysign(sd(rng, 2.5 * a, 6 * a), vo)
+                args = {"vo": vo, "vdrop": sd(rng, 1.1 * a, 2 * a)}
+            elif rng.random() < 0.6:
                 args["vdrop"] = sgn(rng, sd(rng, 0.02, 0.8 * abs(vo)), p_neg_args)
             if rng.random() < p_table:
                 args["ig"] = mk_table(rng, "ig", 1e-6, 1e-3, vin, iscale)
@@ -238,7 +242,27 @@ def gen_system(rng, *, max_nodes=24, p_table=0.25, p_mux=0.3, n_sources=None, po
         add_detour(rng, desc)
     if rng.random() < p_bridge:
         add_bridge(rng, desc)
+    elif rng.random() < p_dup:
+        add_dupbridge(rng, desc)
     return desc
+
+
+def add_dupbridge(rng, desc):
+    """a PMux input that owns a rail is listed by rail, followed by a temporary child of it; see sysdesc.build"""
+    rail_of = {c["name"]: c.get("rail", "") for c in desc["comps"]}
+    owner = {r: n for n, r in rail_of.items() if r}
+    for c in desc["comps"]:
+        if c["kind"] != "pmux":
+            continue
+        slots = []
+        for k, p in enumerate(c["parents"]):
+            n = owner.get(p, p)
+            if rail_of.get(n, ""):
+                slots.append((k, rail_of[n]))
+        if slots:
+            k, r = rng.choice(slots)
+            desc.setdefault("_build", {})["dupbridge"] = {"child": c["name"], "slot": k, "rail": r}
+            return
 
 
 def add_bridge(rng, desc):
